@@ -135,6 +135,25 @@ EXT = {
     "C04": " A directory symlink inside the tree (both locations are directories of the tree) is modelled; SymPath also answers stat / lstat / open / read_text from the model.",
 }
 
+# round 4 additions (appended to the texts above)
+EXT4 = {
+    "C01": " Round 4: full batches of 3 subjects x 3 objects (and 3 x 2, 2 x 3), all pairwise unrelated, either filter kind, on a forest of six roots with one sub module each (window: one import per subject/object pair plus bystander imports); 'anything' batches listing a module together with one of its own descendants (top-most reading, inner-to-outer imports don't-care).",
+    "C03": " Round 4: as C01 (3 x 3 batches, nested 'anything' batches).",
+    "C02": " Round 4: end-to-end statement-pair instances on the symbolic file system: one file with up to nine import statements that spell the same module name absolutely and relatively at levels 1-3, the name existing at four places of the tree (presence of each statement and existence of each file symbolic).",
+    "C04": " Round 4: scanned packages two or three levels below the root whose own name equals / is a string prefix of the directory above (r/ab/a, r/a/a, r/a/a/a) with parent-relative import spellings.",
+    "C05": " Round 4: multi-module regex layers are written both as a parenthesised alternation and as a top-level alternation with every alternative anchored.",
+    "C06": " Round 4: alias texts equal to the first segment of a dotted component name (of their own or of another component).",
+    "C08": " Round 4: a from-import naming a package whose files alone are excluded (imports renamed by C02's naming rule are left out of the filtered-vs-unfiltered comparison), a file whose name contains a backslash; the string-theory query reports the bound it actually decided (ladder 6/5/4 on unknown).",
+    "C10": " Round 4: a sibling package whose name extends module_path's (r/sub_x) with patterns matching the sibling itself; option pairs with the other option supplied as an explicit empty tuple.",
+    "C11": " Round 4: regexes written like a module name (unescaped dots, optional anchors) on a universe with a look-alike module (a.x.y / a.x_y); partial names are expanded by their documented glob meaning, stated independently of the library's translation; edge-dot partial names (n.*, *.n).",
+    "C12": " Round 4: all laws also on architectures BUILT by the real NetworkxGraph constructor from a symbolic list of nine candidate imports (incl. imports inside one flattened module, of an ancestor, of an unknown module) with level_limit 1 / 2 / none - exhaustive over the presence bits, decided by one query per (limit, subject).",
+    "C13": " Round 4: module_path placement is a 9-ary symbolic choice (3 inside; outside: unrelated sibling, the parent, siblings whose names extend / are a prefix of the root directory's name, a directory below such a sibling); absent names inside batches (absent child of a listed present parent, absent sibling) on either side.",
+    "C14": " Round 4: single-module layers also defined through the single-string form of containing_modules under both namings.",
+    "C15": " Round 4: set algebra on dict views counts as an order-nondeterministic set; a windowed DiagramRule instance whose arrow sources are written by alias.",
+    "C16": " Round 4: a vocabulary in which a layer is defined by a regex that is literally a module name and that name is then offered to another layer (str form, list form, inside a longer list).",
+    "C17": " Round 4: a universe with look-alike names that differ from an aliased name only where it has a dot (p.a / p_a, p.a.b / p.a_b / p_a.b).",
+}
+
 
 def main():
     props = [json.loads(l) for l in open(os.path.join(HERE, "properties.jsonl"))]
@@ -152,7 +171,7 @@ def main():
                 "evidence_file": f"/verif/evidence/{pid}.json",
                 "replay_cmd_template": f"./check {pid} --replay {{path}}",
                 "engine": c.get("engine", "vf"),
-                "level_claimed": {"category": "model_checking", "text": c["text"] + EXT.get(pid, ""), "design_ref": f"DESIGN.md section {c['ref']}"},
+                "level_claimed": {"category": "model_checking", "text": c["text"] + EXT.get(pid, "") + EXT4.get(pid, ""), "design_ref": f"DESIGN.md section {c['ref']}"},
                 "level_note": c["note"],
                 "technique": c["technique"],
             }
